@@ -221,6 +221,32 @@ def sig_F5(spec, beam):
     return False
 
 
+def sig_F1(spec):
+    """inside a Segment, a Cavity whose voltage batch mixes zero and non-zero entries: the batch is not skippable (tracked by
+    Cavity.track with its second-order tau term), the zero-voltage entry alone is skippable (merged linear map only)"""
+    if spec["cls"] != "Segment":
+        return False
+    for s in spec["es"]:
+        if s["cls"] == "Cavity":
+            v = flat(s["kw"].get("voltage", 0.0))
+            if any(x == 0.0 for x in v) and any(x != 0.0 for x in v):
+                return True
+    return False
+
+
+def sig_F23(spec, beam):
+    """TransverseDeflectingCavity whose misalignment (or tilt) carries a batch shape different from the beam's: the final torch.stack
+    is not preceded by broadcast_tensors (Drift and Quadrupole do broadcast)"""
+    for s in (spec["es"] if spec["cls"] == "Segment" else [spec]):
+        if s["cls"] == "TransverseDeflectingCavity":
+            ms = tuple(torch.tensor(s["kw"].get("misalignment", [0.0, 0.0])).shape[:-1])
+            ts = tuple(torch.tensor(s["kw"].get("tilt", 0.0)).shape)
+            es = tuple(torch.broadcast_shapes(ms, ts))
+            if es and es != beam_batch_shape(beam):
+                return True
+    return False
+
+
 def sig_F21(spec, beam):
     for s in (spec["es"] if spec["cls"] == "Segment" else [spec]):
         if s["cls"] == "SpaceChargeKick" and torch.tensor(s["kw"]["effect_length"]).dim() > 0:
@@ -234,6 +260,12 @@ def classify(run, spec, beam, status, detail):
         return True
     if sig_F5(spec, beam) and status in ("mismatch", "nan_from_neighbour"):
         run.known("Cavity batch mixing accelerating and non-accelerating entries: the latter get NaN / wrong tau (whole-tensor branch `torch.any(delta_energy > 0)`) [F5]")
+        return True
+    if sig_F1(spec) and status == "mismatch":
+        run.known("Segment containing a Cavity whose voltage batch mixes zero and non-zero entries: the zero-voltage entry is tracked with Cavity.track's second-order tau term in the batch but by its linear map alone (same root as F1: Cavity(voltage=0).track != its transfer_map) [F1]")
+        return True
+    if sig_F23(spec, beam) and status == "exception":
+        run.known("TransverseDeflectingCavity with vectorised misalignment/tilt and a beam of a different (broadcast-compatible) batch shape raises in torch.stack instead of broadcasting [F23]")
         return True
     if sig_F21(spec, beam) and status in ("exception", "shape"):
         run.known("SpaceChargeKick with a vectorised effect_length and a beam without that batch dimension raises instead of broadcasting [F21]")
